@@ -102,7 +102,7 @@ def cfg_read_through_call_arg_unseen(sig, case):
 # ---------------------------------------------------------------- C05
 def c05_unify_ignores_asserts(sig, case):
     """Unification does not check the callee's assertions (TODO 'Asserts' in LoopIR_unification.py)"""
-    return sig.get("monitor") == "replace" and sig.get("variant") == "strict" and sig.get("kind") == "event:call_pred"
+    return sig.get("monitor") == "replace" and sig.get("kind") in ("event:call_pred", "event:call_size")
 
 
 # ---------------------------------------------------------------- C03
